@@ -195,6 +195,126 @@ theorem newBVH_perm (split : List (List Nat) → Nat × Nat)
           rw [List.take_append_drop] at this
           exact this.trans hA
 
+/-- `newBVH_perm` with the hypothesis on the oracle restricted to the calls `newBVH` actually makes: `d` per-axis
+lists (`d` = 2 or 3) of at least three objects that are permutations of each other. -/
+theorem newBVH_perm_of (d : Nat) (split : List (List Nat) → Nat × Nat)
+    (hsp : ∀ s b, SortedInv s b → s.length = d → 3 ≤ (s.getD 0 []).length →
+      (split s).1 < s.length ∧ 0 < (split s).2 ∧ (split s).2 < (s.getD 0 []).length) :
+    ∀ (fuel : Nat) (sorted : List (List Nat)) (base : List Nat), SortedInv sorted base →
+      sorted.length = d → 0 < base.length → base.length ≤ fuel →
+      ∃ t, newBVH split fuel sorted = some t ∧ t.leaves.Perm base := by
+  intro fuel
+  induction fuel with
+  | zero => intro sorted base h hd hp hl; omega
+  | succ fuel ih =>
+      intro sorted base h hd hp hl
+      have hlen : 0 < sorted.length := List.length_pos_of_ne_nil h.2.1
+      have h0 : (sorted.getD 0 []).Perm base := getD_of_ne_nil h 0 hlen
+      have hn : (sorted.getD 0 []).length = base.length := h0.length_eq
+      simp only [newBVH]
+      have hz : ¬ (sorted.getD 0 []).length = 0 := by omega
+      simp only [hz, if_false]
+      by_cases h1 : (sorted.getD 0 []).length = 1
+      · simp only [h1, if_true]
+        refine ⟨_, rfl, ?_⟩
+        match hs : sorted.getD 0 [], h1 with
+        | [a], _ => simp only [Shape.leaves, List.getD_cons_zero]; rw [hs] at h0; exact h0
+      · simp only [h1, if_false]
+        by_cases h2 : (sorted.getD 0 []).length = 2
+        · simp only [h2, if_true]
+          refine ⟨_, rfl, ?_⟩
+          match hs : sorted.getD 0 [], h2 with
+          | [a, b], _ =>
+              simp only [Shape.leaves, List.getD_cons_zero, List.getD_cons_succ, List.cons_append, List.nil_append]
+              rw [hs] at h0; exact h0
+        · simp only [h2, if_false]
+          obtain ⟨ha, hi0, hi1⟩ := hsp sorted base h hd (by omega)
+          obtain ⟨i1, i2, l1, l2⟩ := splitBounders_inv h (split sorted).1 (split sorted).2 ha
+          have hA : (sorted.getD (split sorted).1 []).Perm base := getD_of_ne_nil h _ ha
+          obtain ⟨t1, e1, p1⟩ := ih _ _ i1 (by rw [l1, hd]) (by rw [List.length_take, hA.length_eq]; omega)
+            (by rw [List.length_take, hA.length_eq]; omega)
+          obtain ⟨t2, e2, p2⟩ := ih _ _ i2 (by rw [l2, hd]) (by rw [List.length_drop, hA.length_eq]; omega)
+            (by rw [List.length_drop, hA.length_eq]; omega)
+          rw [e1, e2]
+          refine ⟨_, rfl, ?_⟩
+          have := p1.append p2
+          rw [List.take_append_drop] at this
+          exact this.trans hA
+
+/-! ### The real split oracle is in range -/
+section Oracle
+variable {α β : Type} [Add α] [Mul α] [LT α] [DecidableLT α] [OfNat α 0]
+
+/-- The selection loop of `areaDensityBVHSplit` keeps a best index in `[2, m)` once it has one. -/
+theorem splitLoop_range (g : Nat → α) (m : Nat) :
+    ∀ (l : List Nat) (acc : Nat × α), (∀ i ∈ l, 1 ≤ i ∧ i + 1 < m) → (2 ≤ acc.1 ∧ acc.1 < m) →
+      2 ≤ (l.foldl (fun (acc : Nat × α) i => if g i < acc.2 ∨ i = 1 then (i + 1, g i) else acc) acc).1 ∧
+        (l.foldl (fun (acc : Nat × α) i => if g i < acc.2 ∨ i = 1 then (i + 1, g i) else acc) acc).1 < m := by
+  intro l
+  induction l with
+  | nil => intro acc _ h; exact h
+  | cons i l ih =>
+      intro acc hl hacc
+      simp only [List.foldl_cons]
+      apply ih
+      · intro j hj; exact hl j (List.mem_cons_of_mem _ hj)
+      · have hi := hl i List.mem_cons_self
+        split
+        · exact ⟨by simp only; omega, hi.2⟩
+        · exact hacc
+
+/-- **`areaDensityBVHSplit` returns an index strictly inside the slice**: with at least three faces, `0 < index <
+len(faces)` (in fact `2 ≤ index`), whatever the areas and scores are — both halves of the split are non-empty. -/
+theorem areaDensitySplit_range (union : β → β → β) (area : β → α) (cnt : Nat → α) (boxes : List β)
+    (h : 3 ≤ boxes.length) :
+    2 ≤ (areaDensitySplit union area cnt boxes).1 ∧ (areaDensitySplit union area cnt boxes).1 < boxes.length := by
+  match boxes, h with
+  | b0 :: bs, h =>
+      simp only [areaDensitySplit]
+      have hm : (b0 :: bs).length - 2 = ((b0 :: bs).length - 3) + 1 := by omega
+      rw [hm, List.range'_succ, List.foldl_cons]
+      apply splitLoop_range
+        (fun i => area ((prefixUnions union (b0 :: bs)).getD i b0) * cnt i +
+          area ((suffixUnions union (b0 :: bs)).getD (i + 1) b0) * cnt ((b0 :: bs).length - i - 1))
+        (b0 :: bs).length
+      · intro i hi
+        rw [List.mem_range'_1] at hi
+        omega
+      · simp only [or_true, if_true]
+        omega
+
+/-- **The split `newBVH` performs with `areaDensityBVHSplit` is in range** on two or three per-axis lists of at
+least three objects each: a valid axis and a split index that leaves both sides non-empty. -/
+theorem bvhSplit_range (union : β → β → β) (area : β → α) (cnt : Nat → α) (boxOf : Nat → β)
+    (s : List (List Nat)) (hd : s.length = 2 ∨ s.length = 3) (hl : ∀ l ∈ s, l.length = (s.getD 0 []).length)
+    (h3 : 3 ≤ (s.getD 0 []).length) :
+    (bvhSplit union area cnt boxOf s).1 < s.length ∧ 0 < (bvhSplit union area cnt boxOf s).2 ∧
+      (bvhSplit union area cnt boxOf s).2 < (s.getD 0 []).length := by
+  have key : ∀ l ∈ s, 2 ≤ (areaDensitySplit union area cnt (l.map boxOf)).1 ∧
+      (areaDensitySplit union area cnt (l.map boxOf)).1 < (s.getD 0 []).length := by
+    intro l hl'
+    have := areaDensitySplit_range union area cnt (l.map boxOf) (by rw [List.length_map, hl l hl']; exact h3)
+    rw [List.length_map, hl l hl'] at this
+    exact this
+  rcases hd with hd | hd
+  · match s, hd with
+    | [x, y], _ =>
+        have kx := key x (by simp)
+        have ky := key y (by simp)
+        simp only [bvhSplit, List.map_cons, List.map_nil, List.length_cons, List.length_nil]
+        split <;> simp only <;> omega
+  · match s, hd with
+    | [x, y, z], _ =>
+        have kx := key x (by simp)
+        have ky := key y (by simp)
+        have kz := key z (by simp)
+        simp only [bvhSplit, List.map_cons, List.map_nil, List.length_cons, List.length_nil]
+        split
+        · simp only; omega
+        · split <;> simp only <;> omega
+
+end Oracle
+
 /-! ### k-d tree construction -/
 
 variable {α : Type} [LT α] [DecidableLT α]
